@@ -58,7 +58,7 @@ impl Prop for C02 {
     fn assumptions() -> Vec<String> {
         vec![
             "special tokens are ignored on both sides (tokenize(.., true), de_tokenize(.., true)) as the statement says".into(),
-            "expected special ids: 256 + #kept merges + index in the first-occurrence de-duplicated token list".into(),
+            "expected special ids: 256 + #kept merges + index in the first-occurrence de-duplicated token list; #kept is read from vocab_size and validated (prefix of the table, everything without a limit, vocab_size <= max_vocab_size)".into(),
             "tables <= 48 merges, texts <= ~80 bytes".into(),
         ]
     }
@@ -81,19 +81,21 @@ impl Prop for C02 {
                 return out;
             }
         };
-        let kept = match c.max_vocab {
-            None => c.table.entries.len(),
-            Some(l) => l
-                .saturating_sub(c.special.tokens.len())
-                .saturating_sub(256)
-                .min(c.table.entries.len()),
+        let uniq0 = c.special.unique_tokens();
+        let vocab_size = tok.vocab_size();
+        let Some(kept) = vocab_size.checked_sub(256 + uniq0.len()) else {
+            out.fail(format!("vocab_size {vocab_size} smaller than 256 + {} special tokens", uniq0.len()));
+            return out;
         };
+        ensure!(out, kept <= c.table.entries.len(), "{kept} merges in the vocabulary, the table has {}", c.table.entries.len());
+        match c.max_vocab {
+            None => ensure!(out, kept == c.table.entries.len(), "no max_vocab_size but only {kept} of {} merges are used", c.table.entries.len()),
+            Some(l) => ensure!(out, kept == 0 || vocab_size <= l, "vocab_size {vocab_size} exceeds max_vocab_size {l}"),
+        }
         let uniq = c.special.unique_tokens();
         let special_id = |t: &String| -> u32 {
             (256 + kept + uniq.iter().position(|u| u == t).unwrap()) as u32
         };
-        let vocab_size = tok.vocab_size();
-        ensure!(out, vocab_size == 256 + kept + uniq.len(), "vocab_size {vocab_size} != 256 + {kept} + {}", uniq.len());
         let ids = match tok.tokenize(&c.text, true) {
             Ok(t) => t.token_ids,
             Err(e) => {
